@@ -50,14 +50,34 @@ def sources(shape, T, kinds=("dipole", "plane")):
 
 
 def scene(shape=(3, 3, 6), T=4, pml=True, gradient_config=None, reversible=False, use_complex=None, det_kinds=None, src_kinds=("dipole", "plane"),
-          bounds=None, thickness=2, background=None, widths=None, switches=True, bloch_vector=(0.0, 0.0, 0.0)):
+          bounds=None, thickness=2, background=None, widths=None, switches=True, bloch_vector=(0.0, 0.0, 0.0), extra=()):
     b = bounds if bounds is not None else ({"min_z": "pml", "max_z": "pml"} if pml else "periodic")
     dk = det_kinds if det_kinds is not None else ("field", "energy", "poynting", "phasor", "field_red")
     return build_scene(shape, b, thickness=thickness, steps=T, gradient_config=gradient_config, reversible=reversible, use_complex=use_complex,
-                       extra_objects=sources(shape, T, src_kinds) + detectors(shape, T, dk, switches), background=background, widths=widths,
+                       extra_objects=list(extra) + sources(shape, T, src_kinds) + detectors(shape, T, dk, switches), background=background, widths=widths,
                        bloch_vector=bloch_vector)
 
 
 def flat_states(ds):
     """detector_states dict -> list of (name, key, array) sorted."""
     return [(n, k, ds[n][k]) for n in sorted(ds) for k in sorted(ds[n])]
+
+
+def mode_source(shape, index=2):
+    """a ModePlaneSource normal to z spanning the transverse extent (the mode is solved by tidy3d/scipy at placement,
+    concretely; the injection in the time loop is plain JAX and is what the harnesses encode)."""
+    o = fdtdx.ModePlaneSource(name="src_mode", partial_grid_shape=(None, None, 1), wave_character=WAVE, direction="+", mode_index=0)
+    from ..scenes import GridAt
+    return o, [GridAt(o, (2,), (index,))]
+
+
+def lossy_core(shape):
+    from ..scenes import material_box
+    return material_box("core", (1, 1, 0), (shape[0] - 2, shape[1] - 2, shape[2]), fdtdx.Material(permittivity=6.0, electric_conductivity=2.0))
+
+
+def lorentz_slab(shape, z0, nz=1):
+    from fdtdx.dispersion import DispersionModel, LorentzPole
+    from ..scenes import material_box
+    m = fdtdx.Material(permittivity=2.0, dispersion=DispersionModel(poles=(LorentzPole(resonance_frequency=4e14, damping=1e13, delta_epsilon=1.5),)))
+    return material_box("slab", (0, 0, z0), (shape[0], shape[1], nz), m)
